@@ -138,7 +138,7 @@ fn parse_uri(buf: &[u8]) -> Result<(RequestUri<'_>, &[u8]), HttpParsingError> {
                     return Ok((RequestUri::new(uri, 0, 0), rest));
                 }
                 Some(_) => return Err(MalformedStatusLine),
-                None => return Err(MalformedStatusLine),
+                None => return Err(UnexpectedEof), // target not complete yet
             }
         }
     }
